@@ -413,17 +413,19 @@ func (dht *FullRT) runCrawler(ctx context.Context) {
 			newRt.Add(kadKey)
 		}
 
+		// Install the crawl result as a whole: hold the three locks together, in
+		// the order GetClosestPeers takes them. Replacing one structure at a time
+		// lets a reader that already holds the old trie continue with the new
+		// maps, and return a result that is exact for neither crawl.
+		dht.rtLk.Lock()
+		dht.kMapLk.Lock()
 		dht.peerAddrsLk.Lock()
 		dht.peerAddrs = peerAddrs
-		dht.peerAddrsLk.Unlock()
-
-		dht.kMapLk.Lock()
 		dht.keyToPeerMap = kPeerMap
-		dht.kMapLk.Unlock()
-
-		dht.rtLk.Lock()
 		dht.rt = newRt
 		dht.lastCrawlTime = time.Now()
+		dht.peerAddrsLk.Unlock()
+		dht.kMapLk.Unlock()
 		dht.rtLk.Unlock()
 	}
 }
